@@ -96,7 +96,8 @@ def gen_case(rng, idx, tier, emphasis=None):
     else:
         spec = M.gen_spec(rng)
     return {'kind': 'model', 'spec': spec, 'ext_first': rng.random() < 0.7,
-            'build_opts': {'query_zone': rng.random() < 0.3, 'interleave_model': rng.random() < 0.3}}
+            'build_opts': {'query_zone': rng.random() < 0.3, 'interleave_model': rng.random() < 0.3,
+                           'region_default_currency': rng.random() < 0.4}}
 
 
 class C01(object):
